@@ -940,11 +940,15 @@ def main():
                 "blocking first handler; (iv) 0..n disconnect/reconnect cycles. distinct = distinct (part, parameters, schedule/script); every case "
                 "is non-trivial (at least two threads or two messages)")
     only = None
+    replay_classes, replay_reconnects = None, []
     if a.replay:
         import json
         body = json.load(open(a.replay))
         parts = {v.get("case", {}).get("part") for v in body.get("violations", []) if isinstance(v.get("case"), dict)}
         only = parts or None
+        replay_classes = {v.get("class") for v in body.get("violations", [])}
+        replay_reconnects = [(v["case"].get("cycles", 1), v["case"].get("cuts", [])) for v in body.get("violations", [])
+                             if isinstance(v.get("case"), dict) and v["case"].get("part") == "reconnect"]
     cx.patched = probe_patched()
     res.notes.append(f"allocator atomic (generated flag): {cx.atomic}; dispatcher stop token detected: {cx.patched}")
 
@@ -959,8 +963,13 @@ def main():
             part_request_schedules(cx)
         if want("scripted"):
             part_scripted(cx)
-        if want("reconnect") or want("unsolicited"):
+        if replay_reconnects:
+            for cycles, cuts in replay_reconnects:  # exactly the recorded scenarios
+                reconnect_scenario(cx, cycles, cuts)
+        elif want("reconnect") or want("unsolicited"):
             part_unsolicited_and_reconnect(cx)
+        if replay_classes:
+            res.violations = [v for v in res.violations if v["class"] in replay_classes]  # "does the recorded failure still fail"
     except Exception as exc:  # noqa: BLE001
         import traceback
         traceback.print_exc()
